@@ -451,6 +451,12 @@ func (w *writer) setCode(set *CharSet) int {
 	set.mapHashFill(buf)
 	hash := buf.String()
 	i, ok := w.sethash[hash]
+	// The serialised form writes range endpoints as UTF-8, so two sets that differ only in a
+	// surrogate endpoint serialise alike: a hit must be the same set, otherwise look further.
+	for ok && !w.settable[i].Equals(set) {
+		hash += "\x00"
+		i, ok = w.sethash[hash]
+	}
 	if !ok {
 		i = len(w.sethash)
 		w.sethash[hash] = i
